@@ -597,6 +597,16 @@ func (m *Mint) Swap(proofs cashu.Proofs, blindedMessages cashu.BlindedMessages) 
 
 // RequestMeltQuote will process a request to melt tokens and return a MeltQuote.
 // A melt is requested by a wallet to request the mint to pay an invoice.
+// msatToSatRoundUp returns the amount of sats needed to cover msat.
+// It does not add before dividing so that amounts close to the max uint64 do not wrap around.
+func msatToSatRoundUp(msat uint64) uint64 {
+	sat := msat / 1000
+	if msat%1000 != 0 {
+		sat++
+	}
+	return sat
+}
+
 func (m *Mint) RequestMeltQuote(meltQuoteRequest nut05.PostMeltQuoteBolt11Request) (storage.MeltQuote, error) {
 	if meltQuoteRequest.Unit != cashu.Sat.String() {
 		errmsg := fmt.Sprintf("unit '%v' not supported", meltQuoteRequest.Unit)
@@ -614,7 +624,7 @@ func (m *Mint) RequestMeltQuote(meltQuoteRequest nut05.PostMeltQuoteBolt11Reques
 		return storage.MeltQuote{}, cashu.BuildCashuError("invoice has no amount", cashu.MeltQuoteErrCode)
 	}
 	// round up so that an invoice with a sub-satoshi amount is never under-charged
-	invoiceSatAmount := (uint64(bolt11.MSatoshi) + 999) / 1000
+	invoiceSatAmount := msatToSatRoundUp(uint64(bolt11.MSatoshi))
 	quoteAmount := invoiceSatAmount
 
 	// check if a mint quote exists with the same invoice. Having the same payment hash
@@ -646,7 +656,7 @@ func (m *Mint) RequestMeltQuote(meltQuoteRequest nut05.PostMeltQuoteBolt11Reques
 				}
 				isMpp = true
 				amountMsat = mpp.AmountMsat
-				quoteAmount = (amountMsat + 999) / 1000
+				quoteAmount = msatToSatRoundUp(amountMsat)
 				m.logInfof("got melt quote request to pay partial amount '%v' of invoice with amount '%v'",
 					quoteAmount, invoiceSatAmount)
 			} else {
